@@ -123,6 +123,49 @@ fn round_trip(env: &Env, input: &[u8], cfg: &CfgBits) -> Result<Rt, String> {
 }
 
 /// inventory without custom sections of the given name
+/// The names an output carries, read with wasmparser's name-section reader (independent of walrus):
+/// (namespace, index, sub-index) -> name.  None if the section does not parse.
+fn names_of(bytes: &[u8]) -> Option<std::collections::BTreeMap<(u8, u32, u32), String>> {
+    use wasmparser::{BinaryReader, Name, NameSectionReader};
+    let mut out = std::collections::BTreeMap::new();
+    let customs = wasmsplit::customs(bytes)?;
+    let Some((_, data)) = customs.iter().find(|(n, _)| n == b"name") else { return Some(out) };
+    let rd = NameSectionReader::new(BinaryReader::new(data, 0, wasmparser::WasmFeatures::all()));
+    for sub in rd {
+        let sub = sub.ok()?;
+        let mut flat = |ns: u8, map: wasmparser::NameMap| -> Option<()> {
+            for n in map {
+                let n = n.ok()?;
+                out.insert((ns, n.index, 0), n.name.to_string());
+            }
+            Some(())
+        };
+        match sub {
+            Name::Module { name, .. } => {
+                out.insert((0, 0, 0), name.to_string());
+            }
+            Name::Function(m) => flat(1, m)?,
+            Name::Local(im) => {
+                for f in im {
+                    let f = f.ok()?;
+                    for n in f.names {
+                        let n = n.ok()?;
+                        out.insert((2, f.index, n.index), n.name.to_string());
+                    }
+                }
+            }
+            Name::Type(m) => flat(4, m)?,
+            Name::Table(m) => flat(5, m)?,
+            Name::Memory(m) => flat(6, m)?,
+            Name::Global(m) => flat(7, m)?,
+            Name::Element(m) => flat(8, m)?,
+            Name::Data(m) => flat(9, m)?,
+            _ => {}
+        }
+    }
+    Some(out)
+}
+
 fn inventory_without(bytes: &[u8], name: &[u8]) -> Option<Vec<(u8, Vec<u8>, Vec<u8>)>> {
     Some(wasmsplit::inventory(bytes)?.into_iter().filter(|(id, n, _)| !(*id == 0 && n == name)).collect())
 }
@@ -351,6 +394,41 @@ impl Prop for C14 {
             let in_debug = in_customs.iter().any(|(x, _)| x.starts_with(b".debug"));
             out.hit(&format!("dwarf_{}_input_{}", if v.dwarf { "on" } else { "off" }, if in_debug { "has_debug" } else { "no_debug" }));
 
+            // M3: the synthetic-names switch names ANONYMOUS items only: every name the output carries with the
+            // switch off is carried, unchanged, with the switch on, and nothing but the name section differs
+            if v.names && h == 0 {
+                let mut w = vcb.clone();
+                w.synthetic = !w.synthetic;
+                let rt3 = match round_trip(env, &cur, &w) {
+                    Ok(r) => r,
+                    Err(e) => {
+                        out.harness_error = Some(e);
+                        return out;
+                    }
+                };
+                if let Some(b) = rt3.bytes {
+                    let (on, off) = if v.synthetic { (&a, &b) } else { (&b, &a) };
+                    if inventory_without(on, b"name") != inventory_without(off, b"name") {
+                        out.failure = fail("synthetic_names_only_for_anonymous_items", format!("hop {}: flipping the synthetic-names switch changed something other than the name section", h));
+                        return out;
+                    }
+                    if let (Some(n_on), Some(n_off)) = (names_of(on), names_of(off)) {
+                        out.hit("checked_synthetic_names_keep_real_names");
+                        if !n_off.is_empty() {
+                            out.hit("checked_synthetic_names_keep_real_names_input_has_names");
+                        }
+                        for (k, name) in &n_off {
+                            if n_on.get(k) != Some(name) {
+                                out.failure = fail(
+                                    "synthetic_names_only_for_anonymous_items",
+                                    format!("hop {}: with synthetic names off the output names (namespace {}, index {}, sub-index {}) `{}`; with the switch on it is {:?}", h, k.0, k.1, k.2, name, n_on.get(k)),
+                                );
+                                return out;
+                            }
+                        }
+                    }
+                }
+            }
             // M1 / M2: flipping the name (producers) switch removes exactly that section and nothing else
             for (flag, sec_name, oracle) in [(0u8, &b"name"[..], "name_switch_removes_exactly_name"), (1u8, &b"producers"[..], "producers_switch_removes_exactly_producers")] {
                 let mut w = vcb.clone();
